@@ -69,6 +69,9 @@ structure St where
   spec : W := default
   dirExists : Bool := false
   pending : Option Pending := none
+  /-- files the test planted behind the back of the *running* instance: no daemon wrote them and
+      no start-up has seen them yet, so the property says nothing about them until the next start-up -/
+  excused : List String := []
 deriving Inhabited
 
 def vclockStart : Int := 1000000000000
@@ -276,7 +279,7 @@ def implObs (st : St) (op : Op) (line : String) : Option Obs :=
 def judgeLs (st : St) (entries : List (String × String)) : Option String :=
   if !(st.h.up && st.nc.store.persistent && st.nc.store.wipeOnExpiry) then none else
   entries.findSome? fun (l, c) =>
-    if l.startsWith "!" then none
+    if l.startsWith "!" || st.excused.contains l then none
     else if l.startsWith "?" then some "file-outlives-chunk"
     else StoreSpec.judgeFile st.spec.s st.h.cleaned l (decodeBytes (candidates st l) c)
 
@@ -309,6 +312,14 @@ def doInit (st : St) (tok : List String) (trace : Bool) : Option (St × String) 
     | _, _, _, _ => none
   | _ => none
 
+/-- a file the implementation wiped (and the model wipes too) was not overwritten with exactly
+    passes x size zero bytes before its removal; a wipe that did not happen at all is not judged
+    here but by the next directory listing -/
+def badWipe (modelW : List String) (implW : String) : Bool :=
+  if implW == "" then false else
+  (implW.splitOn ",").any fun e =>
+    !modelW.contains e && modelW.any fun m => (m.splitOn ":").head? == (e.splitOn ":").head?
+
 /-- run a parsed op on the model and the abstract store -/
 def execOp (st : St) (op : Op) (impl : Option String) (trace : Bool) : St × String × String :=
   let ops := fsOpsOf st.nc st.h.w op
@@ -322,7 +333,7 @@ def execOp (st : St) (op : Op) (impl : Option String) (trace : Bool) : St × Str
         | some o => verdictOf (StoreSpec.judge (params st) st.spec op o)
         | none => "ok"     -- unparsable: shows up as a divergence
       if v1 != "ok" then v1
-      else if trace && st.nc.store.persistent && st.nc.store.wipeOnExpiry && wiped != (joinSorted (wipedOf ops)) && !(wiped == "" && (wipedOf ops).isEmpty)
+      else if trace && st.nc.store.persistent && st.nc.store.wipeOnExpiry && badWipe (wipedOf ops) wiped
         then "viol:wipe-overwrite" else "ok"
   let st' := { st with h := hstep st.nc st.h (.op op), spec := StoreSpec.step (params st) st.spec op }
   (st', out, verdict)
@@ -352,7 +363,8 @@ def stepLine (trace : Bool) (st : St) (tok : List String) (_line : String) (impl
     match parseData d with
     | some bs =>
       let fs := aset st.h.w.sys.fs (nameOfLabel l) bs
-      ({ st with h := { st.h with w := { st.h.w with sys := { st.h.w.sys with fs := fs } } }, dirExists := true }, "ok", "ok")
+      ({ st with h := { st.h with w := { st.h.w with sys := { st.h.w.sys with fs := fs } } }, dirExists := true,
+                 excused := if st.h.up then l :: st.excused else st.excused }, "ok", "ok")
     | none => (st, "bad-op", "ok")
   | ["adv", n] =>
     -- the clock also runs while no instance exists
@@ -366,7 +378,7 @@ def stepLine (trace : Bool) (st : St) (tok : List String) (_line : String) (impl
     if rest == ["restart"] then
       let ops := ctorOps st.nc.store st.h.w.sys.fs
       if completed then
-        let st' := { st with h := hstep st.nc st.h .restart, spec := { st.spec with s := [] } }
+        let st' := { st with h := hstep st.nc st.h .restart, spec := { st.spec with s := [] }, excused := [] }
         (st', s!"fsops={countEvents ops} ok" ++ wipedSuffix trace ops, "ok")
       else
         ({ st with h := { st.h with up := false, w := { st.h.w with sys := { st.h.w.sys with recs := [] } } },
@@ -388,7 +400,7 @@ def stepLine (trace : Bool) (st : St) (tok : List String) (_line : String) (impl
     match tok with
     | ["restart"] =>
       let ops := ctorOps st.nc.store st.h.w.sys.fs
-      let st' := { st with h := hstep st.nc st.h .restart, spec := { st.spec with s := [] } }
+      let st' := { st with h := hstep st.nc st.h .restart, spec := { st.spec with s := [] }, excused := [] }
       (st', "ok" ++ wipedSuffix trace ops, "ok")
     | ["snap"] => (st, fmtListing (snapshot st.h.w.sys.recs), "ok")
     | _ =>
